@@ -138,7 +138,8 @@ def _lib_raises(ip, node, what):
 
 
 def _parse_module(ip, a_, kw, node):
-    _lib_raises(ip, node, "parse")
+    if not isinstance(a_[0], PyC):
+        _lib_raises(ip, node, "parse")       # (a literal source text of the repo itself parses: exercised by every run of the suite)
     return ZV(parsed(as_str(a_[0])), "CstModule")
 
 
@@ -208,3 +209,49 @@ for _n, _f in (("cst_parsed", lambda ip, a_, kw: ZV(parsed(as_str(a_[0])), "CstM
                ("cst_moved", lambda ip, a_, kw: ZV(moved(as_v(a_[0]), as_v(a_[1])), "CstModule")),
                ("cst_code", lambda ip, a_, kw: ZS(cst_code(as_v(a_[0]))))):
     R.SPEC[_n] = SpecFn(_f, _n)
+
+# ---- MoveImportsToTypeCheckingBlockVisitor._split_module: module bodies, statements, the gatherer's all_imports
+declare_always_truthy("Mover", "Stmt")
+m_body = declare_pred("m_body", L.V, L.V, tag="Seq[Stmt]")                 # Module.body
+stmt_body = declare_pred("stmt_body", L.V, L.V, tag="Seq[ImportNode]")     # SimpleStatementLine.body (small statements)
+is_simple = declare_pred("is_simple", L.V, L.B)                            # isinstance(stmt, SimpleStatementLine)
+g_all = declare_pred("g_all", L.V, L.V, tag="Seq[ImportNode]")             # GatherImportsVisitor.all_imports: every Import / ImportFrom node visited
+R.ATTRS[("CstModule", "body")] = lambda ip, r: ZV(m_body(r.term), "Seq[Stmt]")
+R.ATTRS[("Stmt", "body")] = lambda ip, r: ZV(stmt_body(r.term), "Seq[ImportNode]")
+R.ATTRS[("Gatherer", "all_imports")] = lambda ip, r: ZV(g_all(r.term), "Seq[ImportNode]")
+R.ATTRS[("Mover", "context")] = lambda ip, r: ZV(L.fn("mover_context", L.V, L.V)(r.term), "CodemodContext")
+_TY.ISINSTANCE["libcst.SimpleStatementLine"] = lambda ip, o: is_simple(as_v(o))
+
+# ---- MoveImportsToTypeCheckingBlockVisitor._add_if_type_checking_block
+R.add_field({"Mover"}, "import_items_to_be_moved", "Seq[Item]", "Mover.import_items_to_be_moved")
+import_module_of = L.fn("cst_import_module", L.V, L.V)     # _get_import_module(): AddImportsVisitor on an empty module for the items to be moved (libcst)
+tc_block = L.fn("cst_tc_block", L.V, L.V, L.V)            # _replace_pass_with_imports(placeholder, import_module): the `if TYPE_CHECKING:` statement holding those imports
+module_with_body = L.fn("cst_module_with_body", L.V, L.V, L.V)
+_mb, _bd = L.const("cmb"), L.const("cbd")
+L.axiom(T, "module-with-body", L.FA([_mb, _bd], z3.And(m_body(module_with_body(_mb, _bd)) == _bd, module_with_body(_mb, _bd) != L.NONE), [module_with_body(_mb, _bd)]))
+
+
+def _get_import_module(ip, r, a_, kw, node):
+    items = z3.Select(ip.heap_array("Mover.import_items_to_be_moved"), r.term)
+    return ZV(import_module_of(items), "CstModule")
+
+
+R.METHODS[("Mover", "_get_import_module")] = _get_import_module
+R.METHODS[("Mover", "_replace_pass_with_imports")] = lambda ip, r, a_, kw, node: ZV(tc_block(as_v(a_[0]), as_v(a_[1])), "Stmt")
+
+
+def _module_with_changes(ip, r, a_, kw, node):
+    if set(kw) != {"body"}:
+        raise Unsupported("Module.with_changes(%s)" % sorted(kw))
+    return ZV(module_with_body(r.term, ip.seq_of(kw["body"]).term), "CstModule")
+
+
+R.METHODS[("CstModule", "with_changes")] = _module_with_changes
+for _n, _f, _tg in (("cst_import_module", import_module_of, "CstModule"), ("cst_tc_block", tc_block, "Stmt")):
+    R.SPEC[_n] = SpecFn((lambda f_, tg: lambda ip, a_, kw: ZV(f_(*[as_v(v) for v in a_]), tg))(_f, _tg), _n)
+
+R.TAG_CLASS["Mover"] = "monkeytype.type_checking_imports_transformer:MoveImportsToTypeCheckingBlockVisitor"
+is_import_stmt = declare_pred("is_import_stmt", L.V, L.B)      # isinstance(node, libcst.Import) for a node of all_imports (otherwise it is an ImportFrom)
+_TY.ISINSTANCE["libcst.Import"] = lambda ip, o: is_import_stmt(as_v(o))
+R.ATTRS[("Gatherer", "context")] = lambda ip, r: ZV(L.fn("gatherer_context", L.V, L.V)(r.term), "CodemodContext")
+R.ATTRS[("CodemodContext", "full_package_name")] = lambda ip, r: ZV(L.fn("ctx_package", L.V, L.V)(r.term), "Opt[str]")
